@@ -931,7 +931,12 @@ def str_templates(ctx, r):
                 ok = t1 == [""] and t2 == [("hole", f"{arr}[{idx}]")] and t3 == [("hole", f"{arr}[{idx}]"), ", ", ("call", "array_to_string_helper")]
                 rec = [x for x in A.walk(b3) if isinstance(x, tuple) and x and x[0] == "call" and A.show(x[1]) == "array_to_string_helper"]
                 ok = ok and rec and [A.show(a[1]) for a in rec[0][2]] == [arr, f"({idx} + 1)"]
-                ok = ok and A.show(c1).replace(" ", "") in (f"({idx}==l)",) and A.show(c2).replace(" ", "") in (f"({idx}==(l-1))",)
+                # the length: a local bound to array_length(arr) / arr.len(), under any name, or that call written in place
+                lens = {f"array_length({arr})", f"{arr}.len()"}
+                for x in A.walk(h[4]):
+                    if isinstance(x, tuple) and x and x[0] == "let" and x[2][0] == "pbind" and A.show(x[4]).replace(" ", "") in lens:
+                        lens.add(x[2][1])
+                ok = ok and A.show(c1).replace(" ", "") in {f"({idx}=={lv})" for lv in lens} and A.show(c2).replace(" ", "") in {f"({idx}==({lv}-1))" for lv in lens}
             except (ValueError, KeyError, TypeError, IndexError):
                 ok = False
             r.ob(bool(ok), "prelude.abra:array_to_string_helper:format", PRELUDE, h[-1], "array elements must be rendered in order separated by \", \" (empty: \"\", last: element, otherwise element .. \", \" .. rest)", sample="array_to_string_helper: e0, e1, .. separated by ', '")
@@ -1038,3 +1043,36 @@ def chain_walk(ctx, r):
                 r.ob(wr == pu and len(wr) >= 5, f"map.abra:{f[1]}:slot-arrays-disagree", MAP, x[-1], f"map.{f[1]}: reusing a free slot writes {wr} while creating a slot pushes {pu}: every per-entry array must be written in both cases, or a reused slot keeps a stale key, value, hash, link or occupancy", sample=f"map.{f[1]}: reuse and create both write {len(wr)} per-entry arrays")
     r.count("collision-chain walks", n_walk, 3, MAP)
     r.count("slot allocation sites", n_slot, 1, MAP)
+
+
+@rule("IMPL-HEADER", ["C28", "C24"], "an implementation header of the prelude names each component's type variable once: a repeated variable binds two components to one type and the instance is generated for the wrong one")
+def impl_header(ctx, r):
+    items = abra(ctx, r, PRELUDE)
+    if items is None:
+        return
+    n = 0
+
+    def tvars(t, acc):
+        if isinstance(t, tuple) and t:
+            if t[0] == "tname" and len(t[1]) <= 2 or (t[0] == "tname" and t[1][:1].isupper() and t[1][1:].isdigit()):
+                acc.append(t[1])
+            for x in t[1:]:
+                if isinstance(x, (list, tuple)):
+                    for y in (x if isinstance(x, list) else [x]):
+                        tvars(y, acc)
+        return acc
+
+    for it in items:
+        if it[0] not in ("implement", "extend"):
+            continue
+        ty = it[2] if it[0] == "implement" else it[1]
+        if not (isinstance(ty, tuple) and ty and ty[0] == "ttuple"):
+            continue
+        n += 1
+        names = [c[1] for c in ty[1] if c[0] == "tname"]
+        dup = sorted({x for x in names if names.count(x) > 1})
+        what = f"{it[1]} for {A.type_name(ty)}" if it[0] == "implement" else f"extend {A.type_name(ty)}"
+        r.ob(not dup and len(names) == len(ty[1]), f"prelude.abra:{it[0]} {it[1] if it[0] == 'implement' else ''}:{len(ty[1])}-tuple:repeated-type-variable", PRELUDE, it[-1],
+             f"{what}: the type variable(s) {dup} appear for more than one component. The checker tests each component against its variable separately and does not notice; when the method is instantiated for a concrete tuple the variable is bound twice and the last binding wins, so one component is handled by the code for another component's type (wrong text, or an internal 'expected type' fault)",
+             sample=f"{what}: components {names} pairwise distinct")
+    r.count("tuple implementation headers", n, 9, PRELUDE)
